@@ -428,7 +428,11 @@ func (fx *Fx) provable(st *State, goal *Term) bool {
 	defer os.Remove(f.Name())
 	f.WriteString(txt)
 	f.Close()
-	st2, _ := runSolver(context.Background(), solvers[0], f.Name(), 5)
+	st2, out := runSolver(context.Background(), solvers[0], f.Name(), 5)
+	if os.Getenv("GVC_DEBUG") != "" && st2 != "unsat" {
+		fmt.Fprintf(os.Stderr, "provable? %s -> %s %.200s\n", goal, st2, out)
+		os.WriteFile("/tmp/gvc_provable.smt2", []byte(txt), 0o644)
+	}
 	return st2 == "unsat"
 }
 
